@@ -188,9 +188,11 @@ class TGen:
         if ch.int(0, 7) == 0:
             # a declaration in the member list that declares a tag and no member (C11 6.7.2.1p13 makes only an *untagged* specifier an anonymous member)
             self.ntag += 1
-            form = ch.choice(['struct @NM%d { int q; };', 'const struct @NM%d { char z; long w; };', 'struct __attribute__((packed)) @NM%d { char a; int b; };',
-                              'union @NM%d { long double l; char c; };', 'volatile union @NM%d { int i; };', 'struct @NM%d;'])
-            a.nonmembers = [(ch.int(0, len(fields)), form % (self.ntag + 100 * len(pref)))]
+            form = ch.choice(['struct %s { int q; };', 'const struct %s { char z; long w; };', 'struct __attribute__((packed)) %s { char a; int b; };',
+                              'union %s { long double l; char c; };', 'volatile union %s { int i; };', 'struct %s;'])
+            # the tag is derived from the enclosing tag, so that it is unique wherever that one is (callers substitute their own prefixes in it)
+            ident = 'NM%d_%s' % (self.ntag + 100 * len(pref), (tag or 'anon%d' % ch.int(0, 10 ** 6)).replace(' ', '_'))
+            a.nonmembers = [(ch.int(0, len(fields)), form % ident)]
             self.feat.add('tag-declaration-in-member-list')
         return a
 
